@@ -10,11 +10,12 @@ import (
 
 // ChrootOps: for every method of syslutil.ChrootFs, for every string parameter, how the value
 // travels to the inner filesystem (fs.fs.X(...)):
-//   Checked    - result of fs.join, passed through `if err := fs.openAllowed(v); err != nil { return }`
-//                before the inner call (directly, or as the argument a checked wrapper hands to its callback)
-//   JoinedOnly - result of fs.join, no dominating openAllowed test
-//   Raw        - the parameter itself
-//   Unknown    - anything else
+//
+//	Checked    - result of fs.join, passed through `if err := fs.openAllowed(v); err != nil { return }`
+//	             before the inner call (directly, or as the argument a checked wrapper hands to its callback)
+//	JoinedOnly - result of fs.join, no dominating openAllowed test
+//	Raw        - the parameter itself
+//	Unknown    - anything else
 func init() { register("ChrootOps", chrootOps) }
 
 type scope struct {
